@@ -1,11 +1,222 @@
 package main
 
-import "verifharness/internal/gen"
+// WAL record frames: written by the real WAL.Write (writeBinary), read back - whole and cut short at every tested
+// strict prefix, alone and after a complete record - by the real replayWalFile / replayPhysicRecord (through the
+// build-tag hook engine.VerifReplayWalFile). Line-protocol records carry real FastMarshalMultiRows payloads, so the
+// rows codec is exercised by the round-trip oracle as well.
 
-// placeholder until the WAL frame hook is in place: the slot produces one more integer column
-func genFrame(r *gen.Rand, c *Case) {
-	c.K = "int"
-	c.Shape, c.Vals = genInts(r)
+import (
+	"bytes"
+	"context"
+	"encoding/hex"
+	"math"
+	"os"
+	"path/filepath"
+
+	gsnappy "github.com/golang/snappy"
+	"github.com/openGemini/openGemini/engine"
+	"github.com/openGemini/openGemini/lib/logger"
+	"github.com/openGemini/openGemini/lib/util/lifted/vm/protoparser/influx"
+	"go.uber.org/zap"
+	"verifharness/internal/gen"
+)
+
+var (
+	theWal  *engine.WAL
+	walDir  string
+	walLock = ""
+)
+
+func walInit() {
+	if theWal != nil {
+		return
+	}
+	logger.SetLogger(zap.NewNop())
+	base := os.Getenv("VERIF_WORK")
+	if base == "" {
+		base, _ = os.MkdirTemp("", "c07wal")
+	}
+	walDir = filepath.Join(base, "c07wal")
+	_ = os.RemoveAll(walDir)
+	_ = os.MkdirAll(walDir, 0750)
+	theWal = engine.NewWAL(filepath.Join(walDir, "w"), &walLock, 1, 0, true, false, 1, 0)
 }
 
-func runFrame(c *Case) {}
+type delivered struct {
+	typ    byte
+	binary []byte // payload (line-protocol: the rows re-marshalled by FastMarshalMultiRows)
+}
+
+func replayFile(content []byte) (recs []delivered, perr string) {
+	name := filepath.Join(walDir, "replay.wal")
+	_ = os.WriteFile(name, content, 0600)
+	perr = protect(func() {
+		_ = theWal.VerifReplayWalFile(context.Background(), name, true, func(typ byte, bin []byte, rows []influx.Row, last bool) {
+			if last {
+				return
+			}
+			d := delivered{typ: typ}
+			if typ == byte(engine.WriteWalLineProtocol) {
+				d.binary, _ = influx.FastMarshalMultiRows(nil, rows)
+			} else {
+				d.binary = append([]byte{}, bin...)
+			}
+			recs = append(recs, d)
+		})
+	})
+	return
+}
+
+func genRows(r *gen.Rand) []influx.Row {
+	n := r.Range(1, 4)
+	rows := make([]influx.Row, n)
+	names := []string{"cpu_0000", "m", "mem_0001", "a-very-long-measurement-name-with-version_0003"}
+	strs := []string{"", "x", "hello world", "\x00\xff", "line\nbreak", string(bytes.Repeat([]byte("ab"), 300))}
+	for i := range rows {
+		row := &rows[i]
+		row.Name = names[r.Intn(len(names))]
+		if r.Bool() {
+			row.ShardKey = []byte(row.Name + ",host=a")
+		}
+		for t := r.Intn(4); t > 0; t-- {
+			row.Tags = append(row.Tags, influx.Tag{Key: "t" + strs[r.Intn(3)], Value: strs[r.Intn(len(strs))]})
+		}
+		for f := r.Range(1, 4); f > 0; f-- {
+			fd := influx.Field{Key: "f" + strs[r.Intn(3)]}
+			switch r.Intn(5) {
+			case 0:
+				fd.Type, fd.NumValue = influx.Field_Type_Int, float64(r.Int64Boundary())
+			case 1:
+				fd.Type, fd.NumValue = influx.Field_Type_Float, math.Float64frombits(special(r))
+			case 2:
+				fd.Type, fd.NumValue = influx.Field_Type_Float, float64(r.Intn(100000))/100
+			case 3:
+				fd.Type, fd.StrValue = influx.Field_Type_String, strs[r.Intn(len(strs))]
+			default:
+				fd.Type, fd.NumValue = influx.Field_Type_Boolean, float64(r.Intn(2))
+			}
+			row.Fields = append(row.Fields, fd)
+		}
+		if r.Chance(1, 4) {
+			row.IndexOptions = append(row.IndexOptions, influx.IndexOption{Oid: uint32(r.Intn(10)), IndexList: []uint16{uint16(r.Intn(5)), 7}})
+		}
+		row.Timestamp = r.Int64Boundary()
+	}
+	return rows
+}
+
+func genFrame(r *gen.Rand, c *Case) {
+	c.K = "frame"
+	var payload []byte
+	if r.Chance(2, 5) {
+		c.Typ = 1
+		c.Shape = "line-protocol-rows"
+		payload, _ = influx.FastMarshalMultiRows(nil, genRows(r))
+	} else {
+		c.Typ = 2
+		n := r.Range(1, 300)
+		if r.Chance(1, 5) {
+			n = r.Range(1, 6)
+		}
+		payload = make([]byte, n)
+		if r.Bool() {
+			c.Shape = "binary-random"
+			for i := range payload {
+				payload[i] = byte(r.Uint64())
+			}
+		} else {
+			c.Shape = "binary-repetitive"
+			for i := range payload {
+				payload[i] = byte("abcabcabd"[i%9])
+			}
+		}
+	}
+	c.Payload = hex.EncodeToString(payload)
+	c.seed = r.Uint64()
+}
+
+func runFrame(c *Case) {
+	walInit()
+	payload, _ := hex.DecodeString(c.Payload)
+	c.Mode = -1
+	var frame []byte
+	c.Panic = protect(func() {
+		if err := theWal.Write(payload, engine.WalRecordType(c.Typ), 0); err != nil {
+			c.EncErr = err.Error()
+			return
+		}
+		if _, err := theWal.Switch(); err != nil { // closes the current log file
+			c.EncErr = "wal switch"
+			return
+		}
+		names, _ := filepath.Glob(filepath.Join(walDir, "w", "0", "*.wal"))
+		if len(names) != 1 {
+			c.EncErr = "wal files"
+			return
+		}
+		frame, _ = os.ReadFile(names[0])
+		_ = os.Remove(names[0])
+	})
+	if c.Panic != "" {
+		c.Oracle = "encode-panic"
+		return
+	}
+	if c.EncErr != "" || len(frame) == 0 {
+		c.Oracle = "encode-error"
+		return
+	}
+	c.Hex = hex.EncodeToString(frame)
+	c.Mode = int(frame[0])
+	if len(frame) >= 5 {
+		c.C = hex.EncodeToString(frame[5:])
+		if d, e := gsnappy.Decode(nil, frame[5:]); e == nil {
+			c.D = hex.EncodeToString(d)
+		}
+	}
+	// (a) the whole record
+	recs, p := replayFile(frame)
+	if p != "" {
+		c.Panic, c.Oracle = p, "decode-panic"
+		return
+	}
+	if len(recs) != 1 || int(recs[0].typ) != c.Typ || !bytes.Equal(recs[0].binary, payload) {
+		c.Oracle = "roundtrip-differs"
+		return
+	}
+	// (b) strict prefixes, alone and after one complete copy of the same record
+	r := gen.New(c.seed)
+	ks := map[int]bool{}
+	for k := 0; k < len(frame) && k <= 40; k++ {
+		ks[k] = true
+	}
+	for i := 0; i < 20 && len(frame) > 41; i++ {
+		ks[r.Range(41, len(frame)-1)] = true
+	}
+	ks[len(frame)-1] = true
+	if len(frame) > 1 {
+		ks[len(frame)-2] = true
+	}
+	for k := range ks {
+		c.NPref += 2
+		recs, p := replayFile(frame[:k])
+		if p != "" || len(recs) != 0 {
+			c.Pref = append(c.Pref, k)
+		}
+		recs, p = replayFile(append(append([]byte{}, frame...), frame[:k]...))
+		if p != "" || len(recs) != 1 || !bytes.Equal(recs[0].binary, payload) {
+			c.Pref = append(c.Pref, 1000000+k)
+		}
+	}
+	if len(c.Pref) > 0 {
+		sortInts(c.Pref)
+		c.Oracle = "prefix-accepted"
+	}
+}
+
+func sortInts(a []int) {
+	for i := 1; i < len(a); i++ {
+		for j := i; j > 0 && a[j] < a[j-1]; j-- {
+			a[j], a[j-1] = a[j-1], a[j]
+		}
+	}
+}
